@@ -24,6 +24,7 @@ RULE = ("Hypothesis: VEVENT/VTODO with start in {absent, date, floating, UTC, zo
         "anchors whose addition crosses an offset change wall-clock and elapsed arithmetic are both accepted. Missing start/end: "
         "only the documented incomplete-information errors, and only when the model says information is missing. Non-trivial: an "
         "alarm with REPEAT >= 1 and DURATION, or RELATED=END, or a date start; distinct by hash.")
+RULE += ' Rounds 7-8: triggers given by attribute, add() with plain/typed values, item assignment + RELATED setter; results must be normalised local times.'
 ASSUMPTIONS = ["an event without DTSTART may answer IncompleteComponent even if all alarms are absolute (documented error)",
                "date + whole-day offset stays a date, otherwise midnight is used (documented _add rule)",
                "with a local time zone set a date-valued alarm time may be reported as the date or as local midnight"]
